@@ -27,7 +27,7 @@ One JSON line per executed operation:
   {"k": "f"|"s", "i": sequence index, "j": position, "prog", "target", "level",
    "stages": [[stage, function, digest], ...], "obj": digest, "img": digest | "!Exc@where"}
   or "error": "ExcType@file.py:function" instead of obj/img when the compiler raises.
-When fd 3 is open the same records plus the stage texts are written there.
+The same records plus the stage texts are always written to fd 3 (/dev/null or a file).
 """
 import os
 import sys
@@ -388,13 +388,9 @@ def emit(rec, fd=1):
 
 
 def side_channel(rec, events):
-    """Verbose mode: when the launcher passed an open fd 3, the stage texts go there.
-    Decided *after* the compilation and without any extra input to the process, so
-    that a verbose run is the same configuration state as a normal one."""
-    try:
-        os.fstat(3)
-    except OSError:
-        return
+    """The same records plus the stage texts always go to fd 3 (the launcher connects it to
+    /dev/null or to a file), so that a verbose run performs exactly the same allocations
+    as a normal one and therefore is the same configuration state."""
     out = dict(rec)
     out["texts"] = [[s, fn, t] for s, fn, t in events]
     emit(out, 3)
